@@ -325,6 +325,17 @@ def user_text(text: str) -> str:
     return "\n".join(out).rstrip("\n")
 
 
+def stamped_text(text: str) -> str:
+    """the page with the VALUES of identity ZIDs erased (counters may be burnt by a killed run) but modify-date stamps kept"""
+    out = []
+    for line in text.split("\n"):
+        m = FIRST_RE.match(line)
+        if m and m.group(3):
+            line = m.group(1) + (m.group(2) + " " if m.group(2) else "") + "<ZID> " + line[m.end():]
+        out.append(line.rstrip(" "))
+    return "\n".join(out).rstrip("\n")
+
+
 def identity_zids(text: str):
     out = []
     for line in text.split("\n"):
